@@ -116,14 +116,3 @@ def run(ctx, config='rel-all'):
         ctx.violation('R3', i['self'], 'unsafe-Sync', 'unexpected unsafe impl Sync for %s' % i['self'], i.get('span'))
 
 
-def thorough(ctx):
-    for cfg in ('rel-default', 'rel-coll'):
-        sub = type(ctx)(ctx.pid, ctx.tier, ctx.seed)
-        sub.repo = ctx.repo
-        run(sub, cfg)
-        for v in sub.violations:
-            if not any(x['key'] == v['key'] for x in ctx.violations):
-                ctx.violations.append(v)
-        for k, n in sub.counts.items():
-            ctx.counts[k] = ctx.counts.get(k, 0) + n
-        ctx.configs_used.extend(sub.configs_used)
